@@ -294,5 +294,6 @@ def judgeO (arg impl : String) : String :=
 def handlers : List Driver.Handler :=
   [{ cmd := "conv", model := model, judge := fun a i => judgeC02 a i },
    { cmd := "convo", model := modelO, judge := judgeO },
+   { cmd := "convox", model := fun _ => optModelDeclines, judge := judgeO },
    { cmd := "convwf", model := model, judge := judgeC03 }]
 end Driver.ConvD
